@@ -88,47 +88,6 @@ func segMatch(p, q string) bool {
 	return p == q
 }
 
-// strictMatch: p (possibly starting with **) matches a prefix of q.
-func strictMatch(q, p []string) bool {
-	if len(p) > 0 && p[0] == "**" {
-		rest := p[1:]
-		for s := 0; s <= len(q); s++ {
-			if strictMatch(q[s:], rest) {
-				return true
-			}
-		}
-		return false
-	}
-	if len(q) < len(p) {
-		return false
-	}
-	for i := range p {
-		if !segMatch(p[i], q[i]) {
-			return false
-		}
-	}
-	return true
-}
-
-// matchEnd gives the length of the longest prefix of q that option path p
-// addresses (-1: none). For a concrete path that is len(p); for **.rest it is
-// the end of the deepest place at which rest occurs on the way to q.
-func matchEnd(q, p []string) int {
-	if len(p) > 0 && p[0] == "**" {
-		rest := p[1:]
-		for s := len(q) - len(rest); s >= 0; s-- {
-			if strictMatch(q[s:], rest) {
-				return s + len(rest)
-			}
-		}
-		return -1
-	}
-	if strictMatch(q, p) {
-		return len(p)
-	}
-	return -1
-}
-
 // strictPolicy is the statement's policy function: the subtree of an option is
 // merged as if its policy were the global one, so where subtrees nest the
 // innermost one decides (for concrete paths: the longest matching option).
@@ -271,6 +230,15 @@ func arrLeakPolicy(g model.Policy, fos []fopt) model.PolicyFn {
 	}
 }
 
+func onlySimpleDoubleStars(fos []fopt) bool {
+	for _, f := range fos {
+		if isDoubleStar(f.path) && !simpleDoubleStar(f.path) {
+			return false
+		}
+	}
+	return true
+}
+
 func hasDoubleStar(fos []fopt) bool {
 	for _, f := range fos {
 		for _, s := range f.path {
@@ -296,7 +264,7 @@ func hasWildcard(fos []fopt) bool {
 func genPath(r *rand.Rand, a *model.Node) []string {
 	switch x := r.Intn(12); {
 	case x == 0:
-		return []string{"**", gen.Keys[r.Intn(len(gen.Keys))]}
+		return genDoubleStar(r)
 	case x == 1:
 		return []string{"*", gen.Keys[r.Intn(len(gen.Keys))]}
 	case x == 2:
@@ -425,27 +393,7 @@ func removeAt(n *model.Node, p []string) {
 	}
 }
 
-func pathExists(n *model.Node, p []string) bool {
-	for _, s := range p {
-		if !n.IsSub() {
-			return false
-		}
-		if isNum(s) {
-			i, _ := strconv.Atoi(s)
-			if i >= len(n.A) {
-				return false
-			}
-			n = n.A[i]
-		} else {
-			c, ok := n.D[s]
-			if !ok {
-				return false
-			}
-			n = c
-		}
-	}
-	return true
-}
+func pathExists(n *model.Node, p []string) bool { return len(p) == 0 || nodeAt(n, p) != nil }
 
 func allNames(p []string) bool {
 	for _, s := range p {
@@ -476,8 +424,6 @@ func isStarForm(p []string) bool {
 	return false
 }
 
-func isDoubleStar(p []string) bool { return len(p) > 0 && p[0] == "**" }
-
 func contains(p []string, s string) bool {
 	for _, x := range p {
 		if x == s {
@@ -488,23 +434,19 @@ func contains(p []string, s string) bool {
 }
 
 // compatible: two options may be given together if the statement settles what
-// the combination means: their subtrees never start at the same node and a
-// **.name subtree never encloses the start of a concrete one (name does not
-// occur in the concrete path). Single-level wildcards are only used alone.
+// the combination means. Where subtrees nest the innermost one decides; the
+// only thing left open is which of two options wins whose subtrees START at
+// the same node. Two different concrete paths never do; a pattern with "**"
+// can end where another path ends only if their last components are equal.
+// Single-level wildcards are only used alone.
 func compatible(p1, p2 []string) bool {
 	if isStarForm(p1) || isStarForm(p2) || samePath(p1, p2) {
 		return false
 	}
-	d1, d2 := isDoubleStar(p1), isDoubleStar(p2)
-	switch {
-	case d1 && d2:
-		return p1[1] != p2[1]
-	case d1:
-		return !contains(p2, p1[1])
-	case d2:
-		return !contains(p1, p2[1])
+	if !isDoubleStar(p1) && !isDoubleStar(p2) {
+		return true
 	}
-	return true
+	return last(p1) != last(p2)
 }
 
 func comboKind(fos []fopt) string {
@@ -517,20 +459,6 @@ func comboKind(fos []fopt) string {
 		}
 	}
 	return fmt.Sprintf("%dx**+%dxconcrete", ds, cc)
-}
-
-// removeNamed deletes every setting called name, at any depth.
-func removeNamed(n *model.Node, name string) {
-	if !n.IsSub() {
-		return
-	}
-	delete(n.D, name)
-	for _, c := range n.D {
-		removeNamed(c, name)
-	}
-	for _, c := range n.A {
-		removeNamed(c, name)
-	}
 }
 
 type decoy struct {
@@ -597,7 +525,7 @@ func (check) Run(seed int64, tier string, idx int, verbose bool) harness.Result 
 		for try := 0; try < 4; try++ {
 			var p []string
 			if r.Intn(3) == 0 {
-				p = []string{"**", gen.Keys[r.Intn(len(gen.Keys))]}
+				p = genDoubleStar(r)
 			} else if r.Intn(2) == 0 {
 				p = genPath(r, b)
 			} else {
@@ -628,12 +556,8 @@ func (check) Run(seed int64, tier string, idx int, verbose bool) harness.Result 
 		for _, f := range fos {
 			sa := listy(r, prims)
 			if isDoubleStar(f.path) {
-				// some concrete place called name
-				var p []string
-				for i, c := 0, r.Intn(3); i < c; i++ {
-					p = append(p, gen.Keys[r.Intn(len(gen.Keys))])
-				}
-				real = append(real, pl{append(p, f.path[1]), sa})
+				// some concrete place the pattern addresses
+				real = append(real, pl{instantiate(r, f.path), sa})
 				continue
 			}
 			real = append(real, pl{f.path, sa})
@@ -809,7 +733,7 @@ func (check) Run(seed int64, tier string, idx int, verbose bool) harness.Result 
 			res.Violate("field-policy-leaks-to-subsequence-paths", "a field option is applied at a node whose path merely contains the option path as a subsequence: got %s want %s; %s", got, strict, d)
 			return true
 		}
-		if hasDoubleStar(fs) && got == mergeModel(x, y, arrLeakPolicy(gp, fs)).CanonTop() {
+		if hasDoubleStar(fs) && onlySimpleDoubleStars(fs) && got == mergeModel(x, y, arrLeakPolicy(gp, fs)).CanonTop() {
 			res.Violate("list-position-option-leaks-deeper-when-combined-with-**", "an option for a list position, given together with a ** option, is also applied to the same position of lists further down: got %s want %s; %s", got, strict, d)
 			return false
 		}
@@ -855,8 +779,8 @@ func (check) Run(seed int64, tier string, idx int, verbose bool) harness.Result 
 		res.SetAdd("field_policy", fieldPols[f.h].name)
 		form := "concrete"
 		switch {
-		case f.path[0] == "**":
-			form = "**.name"
+		case isDoubleStar(f.path):
+			form = dsForm(f.path)
 		case f.path[0] == "*":
 			form = "*.name"
 		case len(f.path) == 3 && f.path[1] == "*":
@@ -1038,7 +962,7 @@ func (check) Run(seed int64, tier string, idx int, verbose bool) harness.Result 
 		if !hasStarForm(fos) {
 			names := true
 			for _, f := range fos {
-				if !isDoubleStar(f.path) && !allNames(f.path) {
+				if !namesOnly(f.path) {
 					names = false
 				}
 			}
@@ -1051,8 +975,8 @@ func (check) Run(seed int64, tier string, idx int, verbose bool) harness.Result 
 				nw, np := model.FromIfc(mw), model.FromIfc(mp)
 				for _, f := range fos {
 					if isDoubleStar(f.path) {
-						removeNamed(nw, f.path[1])
-						removeNamed(np, f.path[1])
+						removeMatching(nw, nil, f.path)
+						removeMatching(np, nil, f.path)
 					} else {
 						removeAt(nw, f.path)
 						removeAt(np, f.path)
